@@ -417,9 +417,10 @@ def refine(ctx, rec, oracles=('step_update', 'step_stats', 'step_momentum',
     amp = 0.0 if leaf['skip'] else _amp(cfg, leaf, g, rts)
     npg = float(np.linalg.norm(r['pg']))
     # float32 range: the implementation's norm of the preconditioned gradient
-    # overflows / underflows where the float64 model does not
+    # overflows / underflows (squares of entries below 1e-19 are flushed to
+    # zero) where the float64 model does not
     f32_range_bad = (not leaf['skip']) and r['pg'].size and (
-        npg * npg > 1e37 or (0 < npg * npg < 1e-37) or
+        npg * npg > 1e37 or (0 < npg * npg < 1e-30) or
         _max_intermediate(cfg, leaf, g, rts) > 1e37)
     ngam = float(np.linalg.norm(r['gamma']))
     mult = ngam / (npg + ref.EPS) if cfg.get('graft_type', 1) != 0 else 1.0
@@ -596,7 +597,7 @@ def graft(ctx, rec):
                     tick=t, leaf=i)
       continue
     amp = _amp(cfg, leaf, g, rts)
-    if npg <= 10 * amp or npg < 1e-20:
+    if npg <= 10 * amp or npg < 1e-15:
       # preconditioned gradient is (numerically) zero: update must be ~0 or
       # carry the graft norm; direction undefined
       ctx.ev('graft_norm', 'vacuous')
